@@ -130,17 +130,9 @@ func genKCase(rng interface{ IntN(int) int }, opts map[string]bool) *kcase {
 				kb.SelShape = "labels"
 				kb.Sel.Labels = map[string]string{"sel": "x"}
 			}
-			// At most one binding with namespace.labelSelector per case: FactoryStore.Start holds its
-			// mutex across the 100 ms cache-sync poll; two monitors reacting to the same namespace
-			// event block one on the other's timer, which a virtual-time bubble cannot resolve
-			// (a goroutine waiting for a mutex is not durably blocked, so time never advances).
-			if kb.SelShape == "ns-labels" && nsLabelUsed {
-				kb.SelShape = "ns-names"
-				kb.Sel = vlib.KSel{NsNames: []string{"ns1", "dyn1"}}
-			}
-			if kb.SelShape == "ns-labels" {
-				nsLabelUsed = true
-			}
+			// (Several bindings with namespace.labelSelector per case are fine since the sync-yield handler
+			// of vlib.NewSys keeps FactoryStore.Start from arming a timer while it holds its mutex.)
+			_ = nsLabelUsed
 			if opts["no-dynamic-ns"] && kb.SelShape == "ns-labels" {
 				kb.SelShape = "all-namespaces"
 				kb.Sel = vlib.KSel{}
